@@ -120,7 +120,8 @@ def run(ctx, rep):
         for i, j, s in b.stmts():
             if s["k"] == "assign" and s["rv"]["k"] == "agg" and (s["rv"].get("adt") or "").endswith("DispatchId"):
                 ids[s["rv"]["vname"]] = show_origin(b.origin(s["rv"]["ops"][0]))
-        ok = set(ids) == {"FeeId", "GbtLink"} and "RDH_CRU::fee_id(&arg2.0)" in ids.get("FeeId", "") and "RDH_CRU::link_id(&arg2.0)" in ids.get("GbtLink", "")
+        # exact provenance (a widening cast is the only operation allowed on the way)
+        ok = set(ids) == {"FeeId", "GbtLink"} and ids.get("FeeId") == "RDH_CRU::fee_id(&arg2.0)" and ids.get("GbtLink") in ("(RDH_CRU::link_id(&arg2.0) as u16)", "<u16 as core::convert::From<u8>>::from(RDH_CRU::link_id(&arg2.0))", "<T as core::convert::Into<U>>::into(RDH_CRU::link_id(&arg2.0))")
         rep.check(ok, "R6.3", "R6.3|dispatch_id_source", "the dispatch id is the packet's own fee_id() / link_id()", dcb, "dispatch ids are built from %s" % ids)
         calls = [(bb, t) for bb, t, cal, c in b.calls() if cal == VD + "dispatch_by_id"]
         ok = len(calls) == 1
@@ -137,33 +138,52 @@ def run(ctx, rep):
         rep.missing("R6.3", dcb)
     dbi = VD + "dispatch_by_id"
     if dbi in f.fns:
-        b = cg.body(dbi)
+        # helper methods of the dispatcher are inlined: the rules speak about events (position lookup,
+        # channel selection, send, push), not about how dispatch_by_id is split into functions
+        from ..mir import Body, inline_fn, path_count_range
+        b = Body(inline_fn(f, dbi, lambda c: c.startswith(VD)))
         pos = [(bb, t) for bb, t, cal, c in b.calls() if cal and cal.endswith("::position")]
-        gets = [(bb, t) for bb, t, cal, c in b.calls() if cal and cal.endswith("<impl [T]>::get")]
-        ok = len(pos) == 1 and len(gets) == 1 and "processors" in show_origin(b.origin(pos[0][1]["args"][0])) and "process_channels" in show_origin(b.origin(gets[0][1]["args"][0]))
-        if ok:
-            io = b.origin(gets[0][1]["args"][1])
-            ok = any(c_[3] == pos[0][0] for c_ in origin_calls(io)) or "position" in show_origin(io)
-        rep.check(ok, "R6.3", "R6.3|index_alignment", "the channel used is process_channels[i] with i = position of the id in processors", dbi,
-                  "channel index is not the position of the packet's id in `processors`")
+        ok = len(pos) == 1 and "processors" in show_origin(b.origin(pos[0][1]["args"][0]))
+        rep.check(ok, "R6.3", "R6.3|lookup", "the packet's id is looked up in `processors` (position)", dbi, "position() sites: %d" % len(pos))
         clo = dbi + "::{closure#0}"
         if clo in f.fns:
             cb = cg.body(clo)
             eqs = [show_origin(cb.origin(t["args"][k])) for bb, t, cal, c in cb.calls() if cal and cal.endswith("PartialEq>::eq") for k in (0, 1)]
             rep.check(len(eqs) == 2 and any("arg2" in e for e in eqs) and any("arg1" in e for e in eqs), "R6.3", "R6.3|position_predicate", "position() compares each stored id with the packet's id", clo, "closure compares %s" % eqs)
         sends = [(bb, t) for bb, t, cal, c in b.calls() if cal == "crossbeam_channel::channel::Sender::<T>::send"]
-        rep.check(len(sends) == 2, "R6.4", "R6.4|two_send_sites", "one send in the found branch and one in the new-validator branch", dbi, "send sites: %d" % len(sends))
-        if len(sends) == 2:
-            rep.check(not (sends[1][0] in b.reachable_from(sends[0][0]) or sends[0][0] in b.reachable_from(sends[1][0])), "R6.4", "R6.4|exactly_once", "no path sends a packet twice", dbi)
-            rep.check(b.all_paths_pass(0, [s_[0] for s_ in sends]), "R6.4", "R6.4|at_least_once", "every path through dispatch_by_id sends the packet", dbi)
-            for bb, t in sends:
-                o = b.origin(t["args"][1])
-                comps = [show_origin(x) for x in o[2]] if o[0] == "agg" else []
-                rep.check(comps == ["arg2", "arg3", "arg4"], "R6.4", "R6.4|payload_unchanged|%d" % sends.index((bb, t)), "the tuple sent is (rdh, data, mem_pos) unchanged", dbi, "sent tuple: %s" % comps)
-        # new-validator branch sends through last() right after init_validator pushed the new channel
-        inits = [bb for bb, t, cal, c in b.calls() if cal == VD + "init_validator"]
-        lasts = [bb for bb, t, cal, c in b.calls() if cal and cal.endswith("<impl [T]>::last")]
-        rep.check(len(inits) == 1 and len(lasts) == 1 and b.dominates(inits[0], lasts[0]), "R6.3", "R6.3|new_channel_is_last", "a new id gets the channel pushed by init_validator (last())", dbi)
+        pushes = [bb for bb, t, cal, c in b.calls() if cal and cal.endswith("Vec::<T, A>::push") and show_origin(b.origin(t["args"][0])).endswith(".process_channels")]
+        rets = b.return_blocks()
+        r = path_count_range(b, 0, rets, [x[0] for x in sends]) if rets else None
+        rep.check(r == (1, 1), "R6.4", "R6.4|exactly_once", "every path through dispatch_by_id sends the packet to exactly one channel, once (%d send site(s))" % len(sends), dbi,
+                  "number of channel sends on the paths through dispatch_by_id: %s (must be exactly 1)" % (r,))
+        kinds = []
+        for bb, t in sends:
+            o = b.origin(t["args"][1])
+            comps = [show_origin(x) for x in o[2]] if isinstance(o, tuple) and o and o[0] == "agg" else [show_origin(o)]
+            rep.check(comps == ["arg2", "arg3", "arg4"], "R6.4", "R6.4|payload_unchanged|%d" % sends.index((bb, t)), "the tuple sent is (rdh, data, mem_pos) unchanged", dbi, "sent tuple: %s" % comps)
+            ch = show_origin(b.origin(t["args"][0]))
+            if "<impl [T]>::get(" in ch and "process_channels" in ch:
+                gets = [c_ for c_ in origin_calls(b.origin(t["args"][0])) if c_[1] and c_[1].endswith("<impl [T]>::get")]
+                idx = show_origin(gets[0][2][1]) if gets else "?"
+                if "position(" in idx and pos and any(c_[3] == pos[0][0] for c_ in origin_calls(gets[0][2][1])):
+                    kinds.append("found")
+                elif re.search(r"len\(&?arg1\*?\.process_channels\) (SubWithOverflow|-|Sub) 0x1\)(\.0)?$", idx):
+                    kinds.append("new" if pushes and all(b.dominates(p_, bb) for p_ in pushes) else "new-without-push")
+                else:
+                    kinds.append("other:" + idx[:80])
+            elif "<impl [T]>::last(" in ch and "process_channels" in ch:
+                kinds.append("new" if pushes and all(b.dominates(p_, bb) for p_ in pushes) else "new-without-push")
+            else:
+                kinds.append("other:" + ch[:80])
+        rep.check(sorted(kinds) == ["found", "new"], "R6.3", "R6.3|index_alignment",
+                  "a known id uses process_channels[position of the id]; a new id uses the channel just pushed for it", dbi,
+                  "channel selection of the send sites: %s — the id↔channel alignment is not preserved" % kinds)
+        # the lookup result decides between the two
+        if pos and len(sends) == 2:
+            found_bb = [x[0] for x, k_ in zip(sends, kinds) if k_ == "found"]
+            new_bb = [x[0] for x, k_ in zip(sends, kinds) if k_ == "new"]
+            ok = bool(found_bb) and bool(new_bb) and b.dominates(pos[0][0], found_bb[0]) and b.dominates(pos[0][0], new_bb[0]) and all(not b.dominates(p_, found_bb[0]) for p_ in pushes)
+            rep.check(ok, "R6.3", "R6.3|new_only_when_unknown", "a validator is created only when the lookup failed", dbi)
     else:
         rep.missing("R6.3", dbi)
     iv = VD + "init_validator"
